@@ -3,6 +3,9 @@ CONSTANTS
   Sessions = {"a"}
   Viewers = {}
   MaxOps = 0
+  MaxExpire = 3
+  TornIds = {}
+  Failures = FALSE
   Variant = "locked"
   External = FALSE
   Sequential = FALSE
